@@ -29,6 +29,7 @@ CLAIMED = {
     'C15': ('6/C15', 'NeGra heuristic and the Collins-style rule interpreter in Transform.tla; clauses one_head, negra.exact, rules.unique_listed, structure_unchanged checked by TLC on all edge assignments within the bounds and on recorded runs of the real head markers (rule tables exported from the working tree).', 'TLC/SANY/CommunityModules; the mechanical graph dump of harness/treeio.py; PUNCT/PAIRPUNCT and head-rule tables are read from the working tree; small-scope hypothesis beyond the bounds', 'TLA+ spec (Transform.tla/TransformProps.tla) + TLC model checking of reference operators + TLC trace validation of every recorded call'),
     'C04': ('6/C04', 'TLC explores every prerequisite-respecting sequence of up to 2 (quick) / 3 (thorough) transformations from every tree within the bounds with the reference operators, checking TreeOK, token preservation and the per-operation label bookkeeping; every (tree, sequence) is replayed on the real functions, the raw pointer graph is dumped after every call and TLC evaluates wf.root/links/nodup/nochildless/tokens, ret_is_root, tokens and labels.<op> on every recorded step.', 'TLC/SANY/CommunityModules; the mechanical graph dump of harness/treeio.py; PUNCT/PAIRPUNCT and head-rule tables are read from the working tree; small-scope hypothesis beyond the bounds', 'TLA+ spec (Transform.tla/TransformProps.tla) + TLC model checking of reference operators + TLC trace validation of every recorded call'),
     'C11': ('6/C11', "DeleteToks/PunctDelete/PtbDeleteTraces/InsertTerminals/SubstituteTerminals/filter as set-level reference operators (Transform.tla); TLC checks clauses untouched, renumbered, pruned, inserted_at, substituted, out_of_range_ignored, no_traces, no_indices, structure, filter on all trees x terminal files (indices -1, 0, valid, n+1, beyond; one or two rows; other sentence ids) x parameters within the bounds, then on recorded runs of the real functions with real temporary terminal files; ret_is_root and wf.* on the raw graphs.", 'TLC/SANY/CommunityModules; harness graph dump; the slash-annotation mode of ptb_delete_traces is not modelled (DESIGN section 9)', 'TLA+ spec (Transform.tla/TransformProps.tla) + TLC model checking + TLC trace validation'),
+    'C10': ('6/C10', "The three transition systems are explicit TLA+ automata over (buffer, stack, deque) (Transitions.tla) with static oracles; TLC checks on every head-marked tree within the bounds that oracle output executed by the automaton rebuilds the tree, explores the automata alone (every transition sequence, complete runs build trees), and must find each named deviation. The transition list emitted by the real oracle IS the trace: TLC steps the automaton along it (one action per transition) and evaluates enabled, consumes_all, single_item, rebuilds, head_sides, sentence, file_line.", 'TLC/SANY/CommunityModules; harness graph dump; transition names split lexically; gap automaton taken from the cited paper (deque pushed back in order) - the code-private reversed order is a recorded known finding', 'TLA+ automata (Transitions.tla) + TLC model checking + TLC trace validation with one action per emitted transition'),
 }
 
 NOT_YET = 'check not built yet (work in progress, see DESIGN.md section 12)'
